@@ -142,6 +142,37 @@ func callersHold(P *Prog, fn *ssa.Function, lock *types.Var, needW bool, depth i
 			}
 			continue
 		}
+		// a bound method handed as a callback to a call made right there (storage.LoadX(m.loadOne)) runs inside that
+		// call, like a function literal in the same place would
+		if mc, isMC := vu.(*ssa.MakeClosure); isMC {
+			okAll, why := true, ""
+			refs := *mc.Referrers()
+			if len(refs) == 0 {
+				okAll = false
+			}
+			for _, ref := range refs {
+				ci, isCall := ref.(ssa.CallInstruction)
+				if _, isGo := ref.(*ssa.Go); !isCall || isGo {
+					okAll, why = false, fmt.Sprintf("%s escapes as a function value at %s", fnName(fn), P.instrPos(vu))
+					break
+				}
+				if ok, _ := heldAt(P, ci, lock, needW); ok {
+					continue
+				}
+				if depth <= 0 {
+					okAll, why = false, fmt.Sprintf("%s used as a callback at %s without %s", fnName(fn), P.instrPos(ci), lock.Name())
+					break
+				}
+				if ok2, w := callersHold(P, vu.Parent(), lock, needW, depth-1, seen); !ok2 {
+					okAll, why = false, w
+					break
+				}
+			}
+			if okAll {
+				continue
+			}
+			return false, why
+		}
 		return false, fmt.Sprintf("%s escapes as a function value at %s", fnName(fn), P.instrPos(vu))
 	}
 	for _, cs := range sites {
